@@ -402,7 +402,8 @@ PROPS = {
             "BPT.C.new_spec",
             "BPT.Props.C13.failed_call_keeps_nothing", "BPT.C.raisingCall_state", "BPT.C.raisingCall_refs", "BPT.C.searchCompares_of_root_keys",
             "BPT.Props.C13.gc_traverse_exact", "BPT.Props.C13.gc_traverse_exact_along_histories", "BPT.Props.C13.gc_traverse_needs_shape",
-            "BPT.C.gcVisit_eq_slotsOf",
+            "BPT.C.gcVisit_eq_slotsOf", "BPT.Props.C13.dealloc_two_pass_balanced", "BPT.Props.C13.dealloc_without_nulling_double_release",
+            "BPT.C.destroyVisit_eq_gcVisit",
         ],
         "ties": C_TIES,
         "suites": [
